@@ -41,6 +41,68 @@ func pollOf(fn *ssa.Function) *ssa.Select {
 	return nil
 }
 
+// pollSite: the instruction at which fn polls its context: its own
+// non-blocking select, or a call to a poll helper (a module function that
+// holds such a select and returns an error) on fn's own context whose non-nil
+// result is returned at once together with the failed status.
+func (p *Prog) pollSite(fn *ssa.Function) ssa.Instruction {
+	if sel := pollOf(fn); sel != nil {
+		return sel
+	}
+	if p.pairKind(fn.Signature) != "status" {
+		return nil
+	}
+	for _, b := range fn.Blocks {
+		for _, ins := range b.Instrs {
+			c, ok := ins.(*ssa.Call)
+			if !ok {
+				continue
+			}
+			h := c.Call.StaticCallee()
+			if h == nil || !inModule(h) || pollOf(h) == nil || h.Signature.Results().Len() != 1 || !isErrorType(h.Signature.Results().At(0).Type()) {
+				continue
+			}
+			own := false
+			for _, a := range c.Call.Args {
+				if q, ok := a.(*ssa.Parameter); ok && q.Parent() == fn && isContextType(q.Type()) {
+					own = true
+				}
+			}
+			if !own {
+				continue
+			}
+			// if err != nil { return failed, err }
+			for _, r := range *c.Referrers() {
+				bo, ok := r.(*ssa.BinOp)
+				if !ok || !isNilConst(bo.Y) || bo.X != ssa.Value(c) {
+					continue
+				}
+				for _, r2 := range *bo.Referrers() {
+					iff, ok := r2.(*ssa.If)
+					if !ok {
+						continue
+					}
+					t := iff.Block().Succs[0]
+					if bo.Op.String() == "==" {
+						t = iff.Block().Succs[1]
+					} else if bo.Op.String() != "!=" {
+						continue
+					}
+					ret, ok := t.Instrs[len(t.Instrs)-1].(*ssa.Return)
+					if !ok || len(ret.Results) != 2 {
+						continue
+					}
+					k, isC := constInt(stripConv(unspill(t, ret, ret.Results[0])))
+					if isC && k == constOf(p.A.StatusFailed) && stripConv(unspill(t, ret, ret.Results[1])) == ssa.Value(c) {
+						return c
+					}
+				}
+			}
+		}
+	}
+	return nil
+}
+
 var rulePoll = &Rule{
 	Name: "R-POLL", NeedSSA: true,
 	Doc: "among the functions of package exec that take a context.Context, every call-graph cycle contains a function that polls ctx.Done() with a non-blocking select (so data-driven recursion cannot run unboundedly after cancellation); in the node dispatcher the poll is in the entry block, before the dispatch switch",
@@ -58,7 +120,7 @@ var rulePoll = &Rule{
 		out.Floors["context_taking_functions"] = 40
 		polls := map[*ssa.Function]bool{}
 		for _, fn := range fns {
-			if pollOf(fn) != nil {
+			if p.pollSite(fn) != nil {
 				polls[fn] = true
 			}
 		}
@@ -174,12 +236,19 @@ var rulePoll = &Rule{
 		}
 		// every cycle of the full graph goes through a poller: report the pollers
 		for fn := range polls {
-			sel := pollOf(fn)
+			sel := p.pollSite(fn)
 			key := "poll in " + fnName(fn)
+			how := "non-blocking select on ctx.Done()"
+			if c, ok := sel.(*ssa.Call); ok {
+				how = "poll through " + calleeName(&c.Call) + " (non-blocking select on ctx.Done(); a non-nil result is returned at once with the failed status)"
+			}
+			if p.pairKind(fn.Signature) != "status" {
+				continue // a poll helper: judged where it is used
+			}
 			if sel.Block() == fn.Blocks[0] || sel.Block().Dominates(fn.Blocks[len(fn.Blocks)-1]) && dominatesAllCalls(fn, sel) {
-				out.ok(key, p.pos(sel.Pos()), fnName(fn), "non-blocking select on ctx.Done() before any evaluation call")
+				out.ok(key, p.pos(sel.Pos()), fnName(fn), how+" before any evaluation call")
 			} else if dominatesAllCalls(fn, sel) {
-				out.ok(key, p.pos(sel.Pos()), fnName(fn), "non-blocking select on ctx.Done() dominates every evaluation call")
+				out.ok(key, p.pos(sel.Pos()), fnName(fn), how+" dominates every evaluation call")
 			} else {
 				out.viol(key, p.pos(sel.Pos()), fnName(fn), "the poll does not precede every evaluation call of this function")
 			}
@@ -195,7 +264,7 @@ var rulePoll = &Rule{
 
 // dominatesAllCalls: the select precedes every call to a context-taking
 // module function in fn.
-func dominatesAllCalls(fn *ssa.Function, sel *ssa.Select) bool {
+func dominatesAllCalls(fn *ssa.Function, sel ssa.Instruction) bool {
 	for _, b := range fn.Blocks {
 		for _, ins := range b.Instrs {
 			ci, ok := ins.(ssa.CallInstruction)
@@ -204,6 +273,9 @@ func dominatesAllCalls(fn *ssa.Function, sel *ssa.Select) bool {
 			}
 			sc := ci.Common().StaticCallee()
 			if sc == nil || !inModule(sc) || !takesContext(sc) {
+				continue
+			}
+			if ins == sel {
 				continue
 			}
 			if !before(sel, ins) {
